@@ -456,18 +456,19 @@ func (a *agg) absorb(path string) (lastIdx int) {
 
 // ReplayFile is what a VIOLATION line points at.
 type ReplayFile struct {
-	Property  string          `json:"property"`
-	Seed      uint64          `json:"verif_seed"`
-	RunIndex  int             `json:"run_index"`
-	RunSeed   uint64          `json:"run_seed"`
-	Tier      string          `json:"tier"`
-	Class     string          `json:"class"`
-	Signature string          `json:"signature"`
-	Detail    string          `json:"detail"`
-	Case      json.RawMessage `json:"case"`
-	Choices   []int32         `json:"choices"`
-	Log       []string        `json:"log_tail,omitempty"`
-	Minimised bool            `json:"minimised"`
+	Property     string          `json:"property"`
+	Seed         uint64          `json:"verif_seed"`
+	RunIndex     int             `json:"run_index"`
+	RunSeed      uint64          `json:"run_seed"`
+	Tier         string          `json:"tier"`
+	Class        string          `json:"class"`
+	Signature    string          `json:"signature"`
+	Detail       string          `json:"detail"`
+	Case         json.RawMessage `json:"case"`
+	Choices      []int32         `json:"choices"`
+	Log          []string        `json:"log_tail,omitempty"`
+	Minimised    bool            `json:"minimised"`
+	ScheduleNote string          `json:"schedule_note,omitempty"`
 }
 
 func writeReplay(o DriveOpts, p Property, v RunOut, minimise bool) string {
@@ -620,9 +621,94 @@ func Minimise(path, self string) int {
 			break
 		}
 	}
+	minimiseSchedule(rf, p, path, self, deadline.Add(40*time.Second))
 	raw, _ := json.MarshalIndent(rf, "", " ")
 	os.WriteFile(path, raw, 0o644)
 	return 0
+}
+
+// minimiseSchedule shortens the recorded choice list while the same signature persists:
+// first the shortest prefix after which the default continuation (keep running the current
+// goroutine, else the lowest id) still fails, then single context switches are removed
+// (lenient replay: a choice that became unavailable falls back to the default). Every accepted
+// candidate is re-recorded, so the stored list replays strictly.
+func minimiseSchedule(rf *ReplayFile, p Property, path, self string, deadline time.Time) {
+	if len(rf.Choices) == 0 {
+		return
+	}
+	try := func(choices []int32, lenient bool) (RunOut, bool) {
+		crf := *rf
+		crf.Choices = choices
+		if len(choices) == 0 {
+			crf.Choices = []int32{0}
+		}
+		raw, _ := json.Marshal(crf)
+		tmp := path + ".sched"
+		os.WriteFile(tmp, raw, 0o644)
+		defer os.Remove(tmp)
+		cmd := exec.Command(self, "try", "-file", tmp)
+		cmd.Env = os.Environ()
+		if lenient {
+			cmd.Env = append(cmd.Env, "VERIF_LENIENT=1")
+		}
+		out, _ := cmd.Output()
+		var res RunOut
+		if json.Unmarshal(out, &res) != nil || res.Violation == nil {
+			return res, false
+		}
+		if res.Violation.Signature == rf.Signature {
+			return res, true
+		}
+		for _, v := range res.Also {
+			if v.Signature == rf.Signature {
+				return res, true
+			}
+		}
+		return res, false
+	}
+	switches := func(ch []int32) int {
+		n := 0
+		for i := 1; i < len(ch); i++ {
+			if ch[i] != ch[i-1] {
+				n++
+			}
+		}
+		return n
+	}
+	before := switches(rf.Choices)
+	// 1. shortest failing prefix (binary search, then verified)
+	lo, hi := 0, len(rf.Choices)
+	for lo < hi && time.Now().Before(deadline) {
+		mid := (lo + hi) / 2
+		if res, ok := try(rf.Choices[:mid], false); ok {
+			hi = mid
+			rf.Choices, rf.Detail, rf.Log = res.Choices, res.Violation.Detail, res.Log
+			if hi > len(rf.Choices) {
+				hi = len(rf.Choices)
+			}
+		} else {
+			lo = mid + 1
+		}
+	}
+	// 2. remove single context switches, latest first
+	tries := 0
+	for i := len(rf.Choices) - 1; i > 0 && tries < 120 && time.Now().Before(deadline); i-- {
+		if i >= len(rf.Choices) || rf.Choices[i] == rf.Choices[i-1] {
+			continue
+		}
+		cand := append([]int32(nil), rf.Choices...)
+		prev := cand[i-1]
+		j := i
+		for j < len(cand) && cand[j] == rf.Choices[i] {
+			cand[j] = prev // stay with the goroutine that was running
+			j++
+		}
+		tries++
+		if res, ok := try(cand, true); ok && switches(res.Choices) < switches(rf.Choices) {
+			rf.Choices, rf.Detail, rf.Log = res.Choices, res.Violation.Detail, res.Log
+		}
+	}
+	rf.ScheduleNote = fmt.Sprintf("schedule minimised: %d -> %d context switches, %d recorded choices", before, switches(rf.Choices), len(rf.Choices))
 }
 
 // Try executes the case of a (candidate) replay file with a fresh schedule and prints the RunOut.
